@@ -20,7 +20,7 @@ PrintLines(ls) == IF ls = <<>> THEN <<>> ELSE PrintAst(Head(ls)) \o <<10>> \o Pr
 MapSrc == PrintLines(MapLines)
 MapBlocks == Blocks([k \in 1..Len(MapLines) |-> Denotes(MapLines[k])])
 
-ParamTypes == {Prim(0, 73), Prim(0, 74), Obj(0, B("x")), Obj(0, B("I")), Obj(0, B("ib/Long")), Obj(2, E \o B("/b")), Obj(1, B("int")), Obj(0, B("p/G<T>")), Obj(0, B("x$In"))}    \* (x is mapped, x$In is not: it keeps its name)      \* (JVMS 4.2.2 forbids only . ; [ / in a class name)
+ParamTypes == {Prim(0, 73), Prim(0, 74), Obj(0, B("x")), Obj(0, B("I")), Obj(0, B("ib/Long")), Obj(2, E \o B("/b")), Obj(1, B("int")), Obj(0, B("p/G<T>")), Obj(0, B("x$In")), Obj(0, B("p/S(old)"))}    \* (x is mapped, x$In is not: it keeps its name)      \* (JVMS 4.2.2 forbids only . ; [ / in a class name)
 RetTypes == {Prim(0, 86), Prim(0, 73), Prim(1, 74), Obj(0, B("x")), Obj(0, B("Long")), Obj(1, E \o B("/b"))}
 
 EditChars == {40, 41, 59, 76, 91, 73, 86, 120}    \* ( ) ; L [ I V x
